@@ -107,8 +107,11 @@ static int same_file(int fd) {
   return st.st_dev == id_dev[fd] && st.st_ino == id_ino[fd];
 }
 static volatile int g_in_uv;        /* > 0 while a libuv API call is running */
+static pthread_t g_main;            /* every other thread of the worker is libuv's (thread pool) */
+#define IN_UV (g_in_uv || !pthread_equal(pthread_self(), g_main))
 static int g_ncreate;               /* creation attempts inside libuv so far */
 static int g_fail_at, g_fail_errno = EMFILE;
+static volatile int g_open_calls;   /* open() calls made inside libuv (pool route of uv_fs_open) */
 static int g_user_close = -1;       /* descriptor the caller asked libuv to close */
 static int g_in_loop_init, g_nofd, g_mutex_n, g_rwlock_n, g_calloc_n;
 static int g_uring_fd = -1, g_uring_closed, g_uring_at;
@@ -166,7 +169,7 @@ static void closed(int fd, int rc) {
 /* ------------------------------------------------------------------ */
 int __wrap_socket(int d, int t, int p) {
   int fd;
-  if (!g_in_uv) return __real_socket(d, t, p);
+  if (!IN_UV) return __real_socket(d, t, p);
   if (want_fail("socket", !!(t & SOCK_CLOEXEC))) return -1;
   fd = __real_socket(d, t, p);
   created("socket", !!(t & SOCK_CLOEXEC), fd);
@@ -174,7 +177,7 @@ int __wrap_socket(int d, int t, int p) {
 }
 int __wrap_socketpair(int d, int t, int p, int sv[2]) {
   int r;
-  if (!g_in_uv) return __real_socketpair(d, t, p, sv);
+  if (!IN_UV) return __real_socketpair(d, t, p, sv);
   if (want_fail("socketpair", !!(t & SOCK_CLOEXEC))) return -1;
   r = __real_socketpair(d, t, p, sv);
   if (r == 0) { created("socketpair", !!(t & SOCK_CLOEXEC), sv[0]); created("socketpair", !!(t & SOCK_CLOEXEC), sv[1]); }
@@ -183,7 +186,7 @@ int __wrap_socketpair(int d, int t, int p, int sv[2]) {
 }
 int __wrap_accept4(int s, struct sockaddr* a, socklen_t* l, int fl) {
   int fd;
-  if (!g_in_uv) return __real_accept4(s, a, l, fl);
+  if (!IN_UV) return __real_accept4(s, a, l, fl);
   OUT("K%d ", handle_of_fd(s));
   if (want_fail("accept", !!(fl & SOCK_CLOEXEC))) {
     if (errno == EMFILE || errno == ENFILE) g_shed_fd = s;   /* uv__emfile_trick follows */
@@ -198,7 +201,7 @@ int __wrap_accept4(int s, struct sockaddr* a, socklen_t* l, int fl) {
 }
 int __wrap_pipe2(int p[2], int fl) {
   int r;
-  if (!g_in_uv) return __real_pipe2(p, fl);
+  if (!IN_UV) return __real_pipe2(p, fl);
   if (want_fail("pipe2", !!(fl & O_CLOEXEC))) return -1;
   r = __real_pipe2(p, fl);
   if (r == 0) { created("pipe2", !!(fl & O_CLOEXEC), p[0]); created("pipe2", !!(fl & O_CLOEXEC), p[1]); }
@@ -207,7 +210,7 @@ int __wrap_pipe2(int p[2], int fl) {
 }
 int __wrap_eventfd(unsigned v, int fl) {
   int fd;
-  if (!g_in_uv) return __real_eventfd(v, fl);
+  if (!IN_UV) return __real_eventfd(v, fl);
   if (want_fail("eventfd", !!(fl & EFD_CLOEXEC))) return -1;
   fd = __real_eventfd(v, fl);
   created("eventfd", !!(fl & EFD_CLOEXEC), fd);
@@ -215,7 +218,7 @@ int __wrap_eventfd(unsigned v, int fl) {
 }
 int __wrap_epoll_create1(int fl) {
   int fd;
-  if (!g_in_uv) return __real_epoll_create1(fl);
+  if (!IN_UV) return __real_epoll_create1(fl);
   if (want_fail("epoll", !!(fl & EPOLL_CLOEXEC))) return -1;
   fd = __real_epoll_create1(fl);
   created("epoll", !!(fl & EPOLL_CLOEXEC), fd);
@@ -228,7 +231,8 @@ int __wrap_open64(const char* path, int fl, ...) {
   va_start(ap, fl);
   if (fl & (O_CREAT | O_TMPFILE)) mode = va_arg(ap, mode_t);
   va_end(ap);
-  if (!g_in_uv) return __real_open64(path, fl, mode);
+  if (!IN_UV) return __real_open64(path, fl, mode);
+  g_open_calls++;
   if (want_fail("open", !!(fl & O_CLOEXEC))) return -1;
   fd = __real_open64(path, fl, mode);
   created("open", !!(fl & O_CLOEXEC), fd);
@@ -236,7 +240,7 @@ int __wrap_open64(const char* path, int fl, ...) {
 }
 int __wrap_dup2(int a, int b) {
   int r;
-  if (!g_in_uv) return __real_dup2(a, b);
+  if (!IN_UV) return __real_dup2(a, b);
   if (want_fail("dup2", 0)) return -1;
   if (b >= 0 && b < MAXFD && tab[b] != ST_NONE && a != b) closed(b, 0);
   r = __real_dup2(a, b);
@@ -245,7 +249,7 @@ int __wrap_dup2(int a, int b) {
 }
 int __wrap_dup3(int a, int b, int fl) {
   int r;
-  if (!g_in_uv) return __real_dup3(a, b, fl);
+  if (!IN_UV) return __real_dup3(a, b, fl);
   if (want_fail("dup3", !!(fl & O_CLOEXEC))) return -1;
   if (b >= 0 && b < MAXFD && tab[b] != ST_NONE && a != b) closed(b, 0);
   r = __real_dup3(a, b, fl);
@@ -259,7 +263,7 @@ int __wrap_fcntl64(int fd, int cmd, ...) {
   va_start(ap, cmd);
   arg = va_arg(ap, long);
   va_end(ap);
-  if (!g_in_uv || (cmd != F_DUPFD && cmd != F_DUPFD_CLOEXEC)) return __real_fcntl64(fd, cmd, arg);
+  if (!IN_UV || (cmd != F_DUPFD && cmd != F_DUPFD_CLOEXEC)) return __real_fcntl64(fd, cmd, arg);
   if (want_fail("dupfd", cmd == F_DUPFD_CLOEXEC)) return -1;
   r = __real_fcntl64(fd, cmd, arg);
   created("dupfd", cmd == F_DUPFD_CLOEXEC, r);
@@ -267,7 +271,7 @@ int __wrap_fcntl64(int fd, int cmd, ...) {
 }
 int __wrap_inotify_init1(int fl) {
   int fd;
-  if (!g_in_uv) return __real_inotify_init1(fl);
+  if (!IN_UV) return __real_inotify_init1(fl);
   if (want_fail("inotify", !!(fl & IN_CLOEXEC))) return -1;
   fd = __real_inotify_init1(fl);
   created("inotify", !!(fl & IN_CLOEXEC), fd);
@@ -276,7 +280,7 @@ int __wrap_inotify_init1(int fl) {
 ssize_t __wrap_recvmsg(int s, struct msghdr* msg, int fl) {
   ssize_t r = __real_recvmsg(s, msg, fl);
   struct cmsghdr* c;
-  if (!g_in_uv || r < 0 || msg->msg_controllen == 0) return r;
+  if (!IN_UV || r < 0 || msg->msg_controllen == 0) return r;
   for (c = CMSG_FIRSTHDR(msg); c != NULL; c = CMSG_NXTHDR(msg, c)) {
     if (c->cmsg_level == SOL_SOCKET && c->cmsg_type == SCM_RIGHTS) {
       size_t n = (c->cmsg_len - CMSG_LEN(0)) / sizeof(int), i;
@@ -297,7 +301,7 @@ long __wrap_syscall(long nr, ...) {
   va_start(ap, nr);
   for (i = 0; i < 6; i++) a[i] = va_arg(ap, long);
   va_end(ap);
-  if (g_in_uv && nr == SYS_close) {
+  if (IN_UV && nr == SYS_close) {
     int fd = (int) a[0], e;
     r = __real_syscall(nr, a[0]);
     e = errno;
@@ -305,7 +309,7 @@ long __wrap_syscall(long nr, ...) {
     errno = e;
     return r;
   }
-  if (g_in_uv && nr == 425 /* io_uring_setup */) {
+  if (IN_UV && nr == 425 /* io_uring_setup */) {
     if (want_fail("uring", 1)) return -1;
     r = __real_syscall(nr, a[0], a[1]);
     i = errno;
@@ -322,18 +326,18 @@ long __wrap_syscall(long nr, ...) {
 int __wrap_fclose(FILE* f) {
   int fd = fileno(f), r;
   r = __real_fclose(f);
-  if (g_in_uv) closed(fd, r);
+  if (IN_UV) closed(fd, r);
   return r;
 }
 int __wrap_closedir(DIR* d) {
   int fd = dirfd(d), r;
   r = __real_closedir(d);
-  if (g_in_uv) closed(fd, r);
+  if (IN_UV) closed(fd, r);
   return r;
 }
 int __wrap_mkstemp64(char* t) {
   int fd;
-  if (!g_in_uv) return __real_mkstemp64(t);
+  if (!IN_UV) return __real_mkstemp64(t);
   if (want_fail("mkstemp", 0)) return -1;
   fd = __real_mkstemp64(t);
   created("mkstemp", 0, fd);
@@ -355,7 +359,7 @@ int __wrap_pthread_rwlock_init(pthread_rwlock_t* m, const pthread_rwlockattr_t* 
 }
 static int g_alloc_fail_at, g_alloc_n;      /* O<k>: the k-th allocation inside libuv from now on fails */
 static int alloc_fails(void) {
-  if (!g_in_uv || g_alloc_fail_at == 0 || getpid() != g_pid) return 0;
+  if (!IN_UV || g_alloc_fail_at == 0 || getpid() != g_pid) return 0;
   if (++g_alloc_n != g_alloc_fail_at) return 0;
   g_alloc_fail_at = 0;
   OUT("Q ");
@@ -406,8 +410,22 @@ static void print_table(const char* tag) {
   OUT(" ");
 }
 
-#define BEGIN() do { OUT("{ "); g_in_uv++; } while (0)
-#define END(...) do { g_in_uv--; reconcile(); OUT("}"); OUT(__VA_ARGS__); OUT(" "); } while (0)
+static int g_bracket;               /* inside "{ ... }" */
+static const char* g_cur_token = "-";
+static int g_resfd = -1;
+#define BEGIN() do { OUT("{ "); g_bracket = 1; g_in_uv++; } while (0)
+#define END(...) do { g_in_uv--; reconcile(); OUT("}"); g_bracket = 0; OUT(__VA_ARGS__); OUT(" "); } while (0)
+
+/* libuv terminated the process (abort(), a fault) or the case hung: flush what was logged so far
+ * and say in which script step it happened */
+static void died(int sig) {
+  size_t off = 0;
+  if (getpid() != g_pid) _exit(97);
+  if (outn > sizeof out - 512) outn = sizeof out - 512;
+  outn += snprintf(out + outn, 400, "%s!died%d:%s }DIED=-1 T\n", g_bracket ? "" : "{ ", sig, g_cur_token);
+  while (off < outn) { ssize_t w = write(g_resfd, out + off, outn - off); if (w <= 0) break; off += w; }
+  _exit(0);
+}
 
 /* the "user" opens a descriptor of its own (close-on-exec, at >= USERBASE) */
 static int user_fd(int fd) {
@@ -460,6 +478,24 @@ static void read_cb(uv_stream_t* s, ssize_t n, const uv_buf_t* b) {
 }
 static void exit_cb(uv_process_t* p, int64_t st, int sig) { pending--; }
 static void fs_cb(uv_fs_t* r) { pending--; uv_fs_req_cleanup(r); }
+/* asynchronous uv_fs_open: on an SQPOLL loop the kernel creates the descriptor from an SQE, no libc
+ * call is involved; the callback is the first moment the caller can observe it */
+static uv_fs_t areq[NH];
+static int areq_opens[NH], areq_done[NH], areq_ring[NH];
+static void afs_cb(uv_fs_t* r) {
+  int g = (int) (long) r->data, fd = (int) r->result;
+  areq_ring[g] = g_open_calls == areq_opens[g];
+  if (areq_ring[g]) {                               /* ring route */
+    if (fd >= 0) {
+      int fl = __real_fcntl64(fd, F_GETFD, 0);
+      OUT("+ringopen.%d=%d ", !!(fl & FD_CLOEXEC), fd);
+      if (fd < MAXFD) { tab[fd] = ST_LIBUV; remember(fd); }
+    } else OUT("-ringopen.1.o ");
+  }
+  given[g] = fd;
+  areq_done[g] = 1;
+  uv_fs_req_cleanup(r);
+}
 static void timer_cb(uv_timer_t* t) { pending--; }
 static void watchdog_cb(uv_timer_t* t) { watchdog_fired = 1; }
 static void nop_signal_cb(uv_signal_t* h, int s) { }
@@ -602,6 +638,30 @@ static void run_token(const char* t) {
       BEGIN(); rc = uv_fs_open(NULL, &r, p, O_CREAT | O_RDWR, 0600, NULL); uv_fs_req_cleanup(&r);
       END("g1:open:%d=%d", h, rc < 0 ? rc : 0);
       given[h] = rc;
+    } else if (t[1] == 'a') {            /* ga<g>:<c|p|d|P>  asynchronous uv_fs_open */
+      int fl;
+      if (!loop_live) { OUT("{ }-=skip "); return; }
+      if (arg[0] == 'c') { snprintf(p, sizeof p, "%s/af%d", g_dir, h); fl = O_CREAT | O_RDWR; }
+      else if (arg[0] == 'p') {
+        int k;
+        snprintf(p, sizeof p, "%s/plain", g_dir);
+        k = __real_open64(p, O_CREAT | O_WRONLY | O_CLOEXEC, 0600); if (k >= 0) close(k);
+        fl = O_RDONLY;
+      }
+      else if (arg[0] == 'd') { snprintf(p, sizeof p, "%s", g_dir); fl = O_RDONLY | O_DIRECTORY; }
+      else { snprintf(p, sizeof p, "%s", g_dir); fl = O_PATH; }
+      areq[h].data = (void*) (long) h;
+      areq_opens[h] = g_open_calls;
+      g_uring_fd = -1; g_uring_closed = 0;
+      areq_done[h] = 0;
+      BEGIN();
+      rc = uv_fs_open(&loop, &areq[h], p, fl, 0600, afs_cb);
+      OUT("Z%d ", !g_uring_closed);               /* the first request creates the SQPOLL ring (linux.c:769-781) */
+      if (rc == 0) {
+        int spins = 0;
+        while (!areq_done[h] && spins++ < 100000) uv_run(&loop, UV_RUN_ONCE);
+        END("g1:%s:%d=%d", areq_ring[h] ? "ringopen" : "open", h, given[h] < 0 ? given[h] : 0);
+      } else END("-=%d", rc);
     } else if (t[1] == 'm') {
       snprintf(p, sizeof p, "%s/tmpXXXXXX", g_dir);
       BEGIN(); rc = uv_fs_mkstemp(NULL, &r, p, NULL); uv_fs_req_cleanup(&r);
@@ -952,11 +1012,17 @@ static int worker(char* line, int resfd) {
     if (__real_fcntl64(fd, F_GETFD, 0) >= 0) { tab[fd] = fd >= PRIV ? ST_PRIV : ST_USER; remember(fd); }
   for (i = 0; i < NH; i++) given[i] = -1;
   g_pid = getpid();
+  g_main = pthread_self();
   uv_replace_allocator(my_malloc, my_realloc, my_calloc, free);
+  g_resfd = resfd;
+  signal(SIGABRT, died); signal(SIGSEGV, died); signal(SIGBUS, died); signal(SIGFPE, died);
+  signal(SIGILL, died); signal(SIGALRM, died);
   alarm(60);
   print_table("I");
-  for (tok = strtok_r(line, " \t\r\n", &sv); tok != NULL; tok = strtok_r(NULL, " \t\r\n", &sv))
+  for (tok = strtok_r(line, " \t\r\n", &sv); tok != NULL; tok = strtok_r(NULL, " \t\r\n", &sv)) {
+    g_cur_token = tok;
     run_token(tok);
+  }
   reconcile();
   print_table("T");
   out[outn++] = '\n';
@@ -976,6 +1042,7 @@ static int child_main(int rfd) {
 int main(int argc, char** argv) {
   static char line[1 << 14];
   int resfd;
+  g_main = pthread_self();
   if (argc >= 2 && !strcmp(argv[1], "--child")) return child_main(argc >= 3 ? atoi(argv[2]) : 3);
   if (argc < 2) return 2;
   g_dir = argv[1];
